@@ -7,4 +7,7 @@ open Distill.Gen
 theorem fam5_cells : ∀ c ∈ allCells, cellOk fam5 c.1 c.2 = true := by
   decide +kernel
 
+theorem fam5_bare : ∀ n ∈ allN, bareOk fam5 n = true := by
+  decide +kernel
+
 end Distill.C17
